@@ -24,6 +24,10 @@
 //!   ordinary exchange of every client must work (RFC 1928 section 7: the relay drops such datagrams).
 //!   Long flows (`rounds=`): the exchanges are repeated on the same sockets without a pause until one flow has
 //!   carried more than 64 KiB of replies (once, three times); every reply must arrive whole.
+//!   Several local sockets on one association (`assoc=shared order=`): ONE UDP ASSOCIATE (one control connection,
+//!   one relay address) used by 2-4 local sockets of the same host (different source ports) at the same time,
+//!   one after the other, or with one socket closed and a new one taking over while the control connection
+//!   stays open; every socket must get exactly its own replies.
 //! * maps: the client's two UDP maps against the Lean model under the paused clock (maps.rs).
 //!
 //! Every wait is bounded; a hang is a failure.  A failing scenario is run again on its own in a
@@ -43,7 +47,7 @@ use std::time::{Duration, Instant};
 use tcp::{check_conn, run_conn, ConnObs, Entry, Mode, TcpScn, ALL_MODES, ENTRIES, MODES};
 
 const KIB: usize = 1024;
-use udp::{run_udp, Junk, JunkKind, OneWay, UdpOutcome, UdpScn, JUNK_KINDS};
+use udp::{run_udp, Junk, JunkKind, OneWay, SharedOrder, UdpOutcome, UdpScn, JUNK_KINDS};
 use world::{World, SLOTS};
 
 #[derive(Clone, Debug)]
@@ -390,6 +394,7 @@ fn random_udp(r: &mut Rng, socks: bool) -> UdpScn {
         oneway: None,
         junk: None,
         rounds: 1,
+        shared: None,
         seed: r.next() % 1_000_000_000,
     }
 }
@@ -401,7 +406,7 @@ fn random_udp(r: &mut Rng, socks: bool) -> UdpScn {
 /// scenario of this family runs in a world of its own, concurrently with everything else.
 fn one_way_pass(r: &mut Rng, tier: Tier) -> Vec<Scn> {
     let mk = |socks: bool, clients: usize, targets: &[usize], sizes: &[usize], replies: usize, domain: bool, seed: u64, ow: OneWay| {
-        Scn::Udp(UdpScn { socks, clients, targets: targets.to_vec(), sizes: sizes.to_vec(), replies, domain, idle_ms: 0, oneway: Some(ow), junk: None, rounds: 1, seed })
+        Scn::Udp(UdpScn { socks, clients, targets: targets.to_vec(), sizes: sizes.to_vec(), replies, domain, idle_ms: 0, oneway: Some(ow), junk: None, rounds: 1, shared: None, seed })
     };
     let ow = |ms: u64, gap_ms: u64, sizes: &[usize], streamers: usize, shared: bool, at_ms: Option<u64>| OneWay { ms, gap_ms, sizes: sizes.to_vec(), streamers, shared, at_ms };
     let mut v = vec![
@@ -451,7 +456,7 @@ fn one_way_pass(r: &mut Rng, tier: Tier) -> Vec<Scn> {
 /// property: the next datagram still reaches the target and its reply the right client, for every client.
 fn junk_pass(r: &mut Rng, tier: Tier) -> Vec<Scn> {
     let mk = |clients: usize, targets: &[usize], sizes: &[usize], domain: bool, seed: u64, kind: JunkKind, other: bool, before: bool| {
-        Scn::Udp(UdpScn { socks: true, clients, targets: targets.to_vec(), sizes: sizes.to_vec(), replies: 1, domain, idle_ms: 0, oneway: None, junk: Some(Junk { kind, other, before }), rounds: 1, seed })
+        Scn::Udp(UdpScn { socks: true, clients, targets: targets.to_vec(), sizes: sizes.to_vec(), replies: 1, domain, idle_ms: 0, oneway: None, junk: Some(Junk { kind, other, before }), rounds: 1, shared: None, seed })
     };
     let mut v = vec![
         // (the first is also corpus/C01/junk-datagram-ends-association.ops)
@@ -476,7 +481,7 @@ fn junk_pass(r: &mut Rng, tier: Tier) -> Vec<Scn> {
 /// the receive buffers) of replies, once and several times over.  Every reply must arrive whole.
 fn long_flow_pass(r: &mut Rng, tier: Tier) -> Vec<Scn> {
     let mk = |socks: bool, clients: usize, targets: &[usize], sizes: &[usize], replies: usize, rounds: usize, seed: u64| {
-        Scn::Udp(UdpScn { socks, clients, targets: targets.to_vec(), sizes: sizes.to_vec(), replies, domain: false, idle_ms: 0, oneway: None, junk: None, rounds, seed })
+        Scn::Udp(UdpScn { socks, clients, targets: targets.to_vec(), sizes: sizes.to_vec(), replies, domain: false, idle_ms: 0, oneway: None, junk: None, rounds, shared: None, seed })
     };
     let mut v = vec![];
     for socks in [true, false] {
@@ -499,6 +504,70 @@ fn long_flow_pass(r: &mut Rng, tier: Tier) -> Vec<Scn> {
             v.push(mk(socks, 2, &[0, 1], &[1000], 1, 70, seed()));
             v.push(mk(socks, 2, &[0, 1], &[1400, 11], 2, 30, seed()));
             v.push(mk(socks, 1, &[2], &[1000], 1, 70, seed()));
+        }
+    }
+    v
+}
+
+/// Several local sockets on ONE SOCKS5 UDP association: one UDP ASSOCIATE (one TCP control connection, one relay
+/// address), 2-4 local UDP sockets of the same host (same IP, different source ports) that all send through
+/// that relay address: at the same time, one after the other, and with one socket closed and a new one (new
+/// source port) going on while the control connection stays open (`clients` sockets at a time, one more over
+/// the life of the association).  Every socket must get exactly its own replies.  One address family per
+/// scenario (an association socket talking to IPv4 AND IPv6 targets is the separate known finding).
+fn shared_assoc_pass(r: &mut Rng, tier: Tier) -> Vec<Scn> {
+    let mk = |clients: usize, targets: &[usize], sizes: &[usize], replies: usize, domain: bool, order: SharedOrder, seed: u64| {
+        Scn::Udp(UdpScn { socks: true, clients, targets: targets.to_vec(), sizes: sizes.to_vec(), replies, domain, idle_ms: 0, oneway: None, junk: None, rounds: 1, shared: Some(order), seed })
+    };
+    use SharedOrder::{Concurrent, Renew, Sequential};
+    // (the first and the third are also corpus/C01/several-sockets-on-one-association.ops)
+    let mut v = vec![
+        mk(2, &[0], &[24], 1, false, Concurrent, 13),
+        mk(3, &[0, 1], &[16, 3, 1400], 1, false, Sequential, 13),
+        mk(1, &[0], &[24], 1, false, Renew, 13),
+    ];
+    if tier == Tier::Thorough {
+        let mut seed = || r.next() % 1_000_000;
+        v.extend([
+            // at the same time: 2-4 sockets, one and two targets, the boundary payload sizes, two replies each
+            mk(2, &[0, 1], &[10, 0, 1399], 1, false, Concurrent, seed()),
+            mk(3, &[1], &[1, 9, 508], 2, false, Concurrent, seed()),
+            mk(4, &[0, 1], &[64, 1400, 11], 1, false, Concurrent, seed()),
+            mk(4, &[0], &[100, 2], 2, false, Concurrent, seed()),
+            mk(3, &[0, 1], &[16, 1200], 1, true, Concurrent, seed()),
+            mk(2, &[2], &[12, 0, 700], 1, false, Concurrent, seed()),
+            mk(4, &[2], &[1400, 10], 2, false, Concurrent, seed()),
+            // one after the other
+            mk(2, &[0], &[24], 1, false, Sequential, seed()),
+            mk(2, &[0, 1], &[0, 1400, 4], 2, false, Sequential, seed()),
+            mk(4, &[1], &[33, 1399], 1, false, Sequential, seed()),
+            mk(4, &[0, 1], &[10], 1, true, Sequential, seed()),
+            mk(3, &[2], &[16, 3], 1, false, Sequential, seed()),
+            // a socket closed, a new one going on (next to 0, 1, 2 sockets that stay)
+            mk(1, &[0, 1], &[16, 0, 1400], 1, false, Renew, seed()),
+            mk(1, &[1], &[100], 2, true, Renew, seed()),
+            mk(2, &[0], &[24, 1399], 1, false, Renew, seed()),
+            mk(2, &[0, 1], &[11, 508], 2, false, Renew, seed()),
+            mk(3, &[0, 1], &[64, 9], 1, false, Renew, seed()),
+            mk(3, &[1], &[1200], 1, true, Renew, seed()),
+            mk(1, &[2], &[24], 1, false, Renew, seed()),
+            mk(3, &[2], &[12, 1400], 1, false, Renew, seed()),
+        ]);
+        // and some by the dice
+        for _ in 0..10 {
+            let all_sizes = [0usize, 1, 3, 4, 9, 10, 11, 100, 508, 1200, 1399, 1400];
+            let order = *r.pick(&udp::SHARED_ORDERS);
+            let clients = if order == Renew { r.range(1, 3) } else { r.range(2, 4) } as usize;
+            let targets: &[usize] = match r.below(6) {
+                0 => &[0],
+                1 => &[1],
+                2 => &[2],
+                _ => &[0, 1],
+            };
+            let n = r.range(1, 3) as usize;
+            let sizes: Vec<usize> = (0..n).map(|_| *r.pick(&all_sizes)).collect();
+            let domain = targets != [2] && r.chance(1, 4);
+            v.push(mk(clients, targets, &sizes, if r.chance(1, 4) { 2 } else { 1 }, domain, order, r.next() % 1_000_000));
         }
     }
     v
@@ -543,15 +612,15 @@ fn fixed_pass(r: &mut Rng, tier: Tier) -> Vec<Scn> {
     }
     // UDP
     for socks in [false, true] {
-        v.push(Scn::Udp(UdpScn { socks, clients: 1, targets: vec![0], sizes: vec![0, 1, 3, 4, 10, 1400], replies: 1, domain: false, idle_ms: 0, oneway: None, junk: None, rounds: 1, seed: r.next() % 1_000_000 }));
-        v.push(Scn::Udp(UdpScn { socks, clients: 4, targets: vec![0, 1], sizes: vec![10, 0, 1399, 64], replies: 2, domain: false, idle_ms: 0, oneway: None, junk: None, rounds: 1, seed: r.next() % 1_000_000 }));
-        v.push(Scn::Udp(UdpScn { socks, clients: 2, targets: vec![2], sizes: vec![12, 0, 700], replies: 1, domain: false, idle_ms: 0, oneway: None, junk: None, rounds: 1, seed: r.next() % 1_000_000 }));
+        v.push(Scn::Udp(UdpScn { socks, clients: 1, targets: vec![0], sizes: vec![0, 1, 3, 4, 10, 1400], replies: 1, domain: false, idle_ms: 0, oneway: None, junk: None, rounds: 1, shared: None, seed: r.next() % 1_000_000 }));
+        v.push(Scn::Udp(UdpScn { socks, clients: 4, targets: vec![0, 1], sizes: vec![10, 0, 1399, 64], replies: 2, domain: false, idle_ms: 0, oneway: None, junk: None, rounds: 1, shared: None, seed: r.next() % 1_000_000 }));
+        v.push(Scn::Udp(UdpScn { socks, clients: 2, targets: vec![2], sizes: vec![12, 0, 700], replies: 1, domain: false, idle_ms: 0, oneway: None, junk: None, rounds: 1, shared: None, seed: r.next() % 1_000_000 }));
     }
-    v.push(Scn::Udp(UdpScn { socks: true, clients: 3, targets: vec![0, 1], sizes: vec![16, 2, 1400], replies: 1, domain: true, idle_ms: 0, oneway: None, junk: None, rounds: 1, seed: r.next() % 1_000_000 }));
+    v.push(Scn::Udp(UdpScn { socks: true, clients: 3, targets: vec![0, 1], sizes: vec![16, 2, 1400], replies: 1, domain: true, idle_ms: 0, oneway: None, junk: None, rounds: 1, shared: None, seed: r.next() % 1_000_000 }));
     // one SOCKS5 UDP client socket, an IPv4 and an IPv6 target (and the same through two UDP remotes, where each
     // listener has its own flow id)
-    v.push(Scn::Udp(UdpScn { socks: true, clients: 1, targets: vec![0, 2], sizes: vec![16, 17], replies: 1, domain: false, idle_ms: 0, oneway: None, junk: None, rounds: 1, seed: 3 }));
-    v.push(Scn::Udp(UdpScn { socks: false, clients: 2, targets: vec![0, 2], sizes: vec![16, 17], replies: 1, domain: false, idle_ms: 0, oneway: None, junk: None, rounds: 1, seed: 4 }));
+    v.push(Scn::Udp(UdpScn { socks: true, clients: 1, targets: vec![0, 2], sizes: vec![16, 17], replies: 1, domain: false, idle_ms: 0, oneway: None, junk: None, rounds: 1, shared: None, seed: 3 }));
+    v.push(Scn::Udp(UdpScn { socks: false, clients: 2, targets: vec![0, 2], sizes: vec![16, 17], replies: 1, domain: false, idle_ms: 0, oneway: None, junk: None, rounds: 1, shared: None, seed: 4 }));
     // long flows: more than 64 KiB of replies on one pair of sockets
     v.extend(long_flow_pass(r, tier));
     // junk on the relay socket of a SOCKS5 UDP association
@@ -681,7 +750,8 @@ fn main() {
 scenario (1-4 local UDP clients x tagged echo targets x payload sizes, via UDP remotes or SOCKS5 UDP associations; also after an idle \
 time, one-way streams longer than two idle timeouts that the target answers only at the end, and exchanges after a malformed \
 datagram on the relay socket of a SOCKS5 association, and long flows: up to 1100 exchanges on the same sockets, more than \
-64 KiB of replies once and three times over) run in real time \
+64 KiB of replies once and three times over, and 2-4 local sockets of one host on ONE SOCKS5 UDP association, at the same time, \
+one after the other, or one closed and a new one going on) run in real time \
 through the real client_main_inner and the real server on loopback; plus map-operation sequences on the real client maps under the \
 paused clock compared with the Lean model. Non-trivial = at least one byte / one datagram crossed the tunnel, or a close / refusal \
 was propagated; distinct by scenario text";
@@ -753,11 +823,17 @@ was propagated; distinct by scenario text";
     for i in 0..n_udp {
         scs.push(Scn::Udp(random_udp(&mut r2, i % 2 == 1)));
     }
+    // several local sockets on one SOCKS5 UDP association (a sub-stream of its own: nothing above changes)
+    let n_before_shared = scs.len();
+    if only.as_deref() != Some("maps") {
+        scs.extend(shared_assoc_pass(&mut rng.fork(5), args.tier));
+    }
+    let n_shared_gen = scs.len() - n_before_shared;
     // the idle scenario (forwarder time-out on the server, pruning on the client) and the one-way streams
     let mut waiting: Vec<Scn> = vec![];
     if only.as_deref() != Some("maps") && !args.flag("--no-idle") {
         for socks in [false, true] {
-            waiting.push(Scn::Udp(UdpScn { socks, clients: 2, targets: vec![0, 1], sizes: vec![24], replies: 1, domain: false, idle_ms: 10_600, oneway: None, junk: None, rounds: 1, seed: 5 }));
+            waiting.push(Scn::Udp(UdpScn { socks, clients: 2, targets: vec![0, 1], sizes: vec![24], replies: 1, domain: false, idle_ms: 10_600, oneway: None, junk: None, rounds: 1, shared: None, seed: 5 }));
         }
         if !args.flag("--no-one-way") {
             waiting.extend(one_way_pass(&mut rng.fork(3), args.tier));
@@ -834,6 +910,8 @@ was propagated; distinct by scenario text";
     let mut infra = 0;
     let mut skipped = 0usize;
     let (mut hdr_remote, mut hdr_client, mut hdr_other) = (0usize, 0usize, 0usize);
+    // several local sockets on one SOCKS5 UDP association: scenarios, sockets, sockets created after another was closed, exchanges, replies
+    let (mut sh_scs, mut sh_sockets, mut sh_renewed, mut sh_exchanges, mut sh_replies) = (0usize, 0usize, 0usize, 0usize, 0usize);
     // dialogues after a half-close: messages awaited, slowest confirmation
     let (mut hold_msgs, mut hold_max_ms) = (0usize, 0u64);
     // late-reading peers: connections, bytes read by the late reader, of them complete with a clean end-of-stream
@@ -971,7 +1049,21 @@ was propagated; distinct by scenario text";
                 }
             }
             (Scn::Udp(u), Outcome::Udp(o)) => {
-                rep.count(&format!("udp/{}/clients-{}", if u.socks { "socks5" } else { "udp-remote" }, u.clients));
+                if let Some(order) = u.shared.filter(|_| u.socks) {
+                    let fam = "udp/socks5/several-sockets-on-one-association";
+                    rep.count(&format!("{fam}/order/{}", order.text()));
+                    rep.count(&format!("{fam}/sockets-over-its-life-{}", o.shared_sockets.max(u.clients)));
+                    rep.count(&format!("{fam}/sockets-at-a-time-{}", u.clients));
+                    rep.count(&format!("{fam}/targets/{}-{}", if u.targets.contains(&2) { "ipv6" } else if u.domain { "domain" } else { "ipv4" }, u.targets.len()));
+                    rep.count(&format!("{fam}/replies-per-datagram-{}", u.replies));
+                    sh_scs += 1;
+                    sh_sockets += o.shared_sockets;
+                    sh_renewed += o.shared_renewed;
+                    sh_exchanges += o.exchanges;
+                    sh_replies += o.replies_ok;
+                } else {
+                    rep.count(&format!("udp/{}/clients-{}", if u.socks { "socks5" } else { "udp-remote" }, u.clients));
+                }
                 rep.count_n("udp/exchanges", o.exchanges as u64);
                 rep.count_n("udp/replies-checked", o.replies_ok as u64);
                 if u.idle_ms > 0 {
@@ -1008,7 +1100,7 @@ was propagated; distinct by scenario text";
         }
     }
     rep.notes.push(format!(
-        "{} end-to-end scenarios ({n_corpus} corpus, {n_fixed} fixed pass, rest random), {} worlds, width {width}; {reruns} failing scenario(s) re-run alone, {} could not be reproduced; {infra} re-run for infrastructure reasons; {} s",
+        "{} end-to-end scenarios ({n_corpus} corpus, {n_fixed} fixed pass, {n_shared_gen} several-sockets-on-one-association, rest random and waiting), {} worlds, width {width}; {reruns} failing scenario(s) re-run alone, {} could not be reproduced; {infra} re-run for infrastructure reasons; {} s",
         scs.len(),
         jobs.len(),
         unreproduced.len(),
@@ -1035,6 +1127,9 @@ was propagated; distinct by scenario text";
     ));
     rep.notes.push(format!(
         "junk on a SOCKS5 relay socket: {junk_relayed} malformed datagram(s) were relayed to the target as if well-formed (kinds: {junk_relayed_kinds:?}; RSV != 0 is relayed by the pinned code: reported, not judged)"
+    ));
+    rep.notes.push(format!(
+        "several local sockets on one SOCKS5 UDP association: {sh_scs} scenario(s) with ONE UDP ASSOCIATE (one control connection, one relay address) used by 2-4 local sockets of one host (different source ports) at the same time / one after the other / with a socket closed and a new one going on while the control connection stays open: {sh_sockets} sockets ({sh_renewed} of them created after another was closed), {sh_exchanges} datagrams, {sh_replies} replies each checked at the socket that sent the request (every socket listening all the time), from the relay address, behind a well-formed RFC 1928 header naming neither another of these sockets nor another target; IPv4 and IPv6 targets never on one association here (that is the separate known finding)"
     ));
     if let Some(d) = &drv {
         rep.notes.push(format!("driver lines: {}", d.lines));
